@@ -86,3 +86,4 @@ func regressC08(t *testing.T, c *ev.Collector) {
 	c.LabelN("regress_inputs", int64(len(inputs)))
 	c.FailIfViolations(t)
 }
+func regressC05(t *testing.T, c *ev.Collector) {}
